@@ -145,6 +145,19 @@ def lowerOctet (c : Nat) : Nat := if 65 ≤ c ∧ c ≤ 90 then c + 32 else c
 def lowerLabel (l : Label) : Label := l.map lowerOctet
 def lowerName (n : Name) : Name := n.map lowerLabel
 
+/-- `Name.to_wire(file=None, origin=…, canonicalize=…)` (also `to_digestable(origin)`): the labels of the
+name, then — for a relative name — the labels of the origin, each label lower-cased iff `canon`; since the
+`fix:` commit an over-long combination raises NameTooLong like the file-writing path. -/
+def toWireO (n : Name) (origin : Option Name) (canon : Bool) : Except NameErr Bytes :=
+  let enc : Name → Bytes := fun ls => ls.flatMap fun l => l.length :: (if canon then lowerLabel l else l)
+  if isAbs n then .ok (enc n)
+  else match origin with
+    | some o =>
+      if isAbs o then
+        (if (enc n ++ enc o).length > Consts.maxName then .error .nameTooLong else .ok (enc n ++ enc o))
+      else .error .needAbsolute
+    | none => .error .needAbsolute
+
 /-- Result of wire name decoding: labels (without the final root label, which the caller appends)
 and `furthest`, the parser position restored by `restore_furthest`. -/
 def fromWireAux (w : Bytes) (endp : Nat) (cur bp furthest : Nat) (acc : List Label) :
